@@ -176,8 +176,9 @@ def assemble(flavour, cfg, files, active_units, ext_out):
             fo = ext_out['files'][fname]
             for seg in fo['segments']:
                 kind = seg['kind']
-                if kind in ('fn', 'method'):
-                    out.append(f"// @UNIT {seg['name']} {fname}:{seg['src_start_line']}-{seg['src_end_line']}\n")
+                if kind in ('fn', 'method', 'trait'):
+                    uname = ('trait:' + seg['name']) if kind == 'trait' else seg['name']
+                    out.append(f"// @UNIT {uname} {fname}:{seg['src_start_line']}-{seg['src_end_line']}\n")
                     out.append(seg['text'] + '\n')
                     out.append('// @ENDUNIT\n')
                 else:
